@@ -17,7 +17,7 @@
    locked deposits and pool creations (monitors mon_C04 / mon_C01x on the implementation).
    Statements only. *)
 From MD.Model Require Import Base Ownable Epoch PoolMath Types PoolManager FarmManager Chain.
-From MD.Proofs Require Import PoolMathProofs BankProofs SwapProofs ChainProofs PmProofs LiquidityProofs PoolCustody PoolCustodyChain NonVacuity SingleSided TxBalances TxExcess PmChainProofs LockedExcess ExcessLedger.
+From MD.Proofs Require Import PoolMathProofs BankProofs SwapProofs ChainProofs PmProofs LiquidityProofs PoolCustody PoolCustodyChain NonVacuity SingleSided TxBalances TxExcess PmChainProofs LockedExcess CreateExcess ExcessLedger.
 
 Theorem C01_backed_in_every_reachable_world : forall g w0 ops,
   genesis_world g = Ok w0 -> 0 <= amount_of (fm_create_fee (g_fm g)) ->
@@ -175,8 +175,24 @@ Theorem C01_excess_through_a_locked_deposit : forall w sender funds ls ss r pid 
     forall d, slackP w' d = slackP w d + ind (String.eqb (p_lp p) d) minliq.
 Proof. exact locked_provide_tx_excess. Qed.
 
+(* a pool creation is paid for exactly (denom by denom the attached funds are the creation fee plus the token-factory fee,
+   C16_creation_funds_are_exactly_the_fees) and the new pool starts empty: the excess is unchanged in every denom *)
+Theorem C01_excess_through_a_pool_creation : forall w sender funds denoms decimals fees pt oid w',
+  sender <> PM -> pm_fee_collector (pm_cfg (w_pm w)) <> PM -> fees_small w ->
+  (forall d, camt funds d <= U128_MAX) ->
+  run_tx w sender PM (WPm (PmCreatePool denoms decimals fees pt oid)) funds = Ok w' ->
+  forall d, slackP w' d = slackP w d.
+Proof. exact create_pool_tx_excess. Qed.
+
+(* ownership and configuration messages (feature switches included) move no funds and no reserves *)
+Theorem C01_excess_through_ownership_and_configuration : forall w sender funds m w',
+  (exists a, m = PmOwnership a) \/ (exists fc fm fee t, m = PmUpdateConfig fc fm fee t) ->
+  run_tx w sender PM (WPm m) funds = Ok w' ->
+  forall d, slackP w' d = slackP w d.
+Proof. exact admin_tx_excess. Qed.
+
 (* THE EXCESS CLAUSE OVER HISTORIES of the core pool operations (any number of swaps, routes, withdrawals, unlocked deposits
-   of one or several assets, locked deposits of two or more assets, plain bank sends, block changes, injected faults, rejected operations, in any order, by any
+   of one or several assets, locked deposits of two or more assets, pool creations, ownership and configuration messages, plain bank sends, block changes, injected faults, rejected operations, in any order, by any
    users): for every denom that is not an LP denom, the excess after the history is EXACTLY the initial excess plus the
    ledger — and every ledger entry (ExcessLedger.gift) is either the amount of a plain bank send to the contract or the one
    indivisible unit of an accepted odd single-asset deposit, zero for every other operation. (good_run: every operation
@@ -214,3 +230,5 @@ Print Assumptions C01_excess_is_exactly_donations_plus_odd_units.
 Print Assumptions C01_ledger_entries_are_never_negative.
 Print Assumptions C01_ledger_example.
 Print Assumptions C01_excess_through_a_locked_deposit.
+Print Assumptions C01_excess_through_a_pool_creation.
+Print Assumptions C01_excess_through_ownership_and_configuration.
